@@ -171,6 +171,8 @@ ExpectedRebuildOps(mode) ==
                                 \o [i \in 1..Len(okItems) |-> << "BTlv", [ty |-> "raw", code |-> okItems[i].t], okItems[i].v >>]
           [] mode = "peek" -> << << "BNew", raw[13], raw[14] >>, << "BWrite", [ty |-> "slice", v |-> ab] >>,
                                  << "BWrite", [ty |-> "tlvs", v |-> tb, adv |-> 1] >> >>
+          [] mode = "value" -> << << "BNew", raw[13], raw[14] >>, << "BWrite", [ty |-> "slice", v |-> ab] >>,
+                                  << "BWrite", [ty |-> "tlvs", v |-> tb] >> >>
           [] OTHER -> << << "BWith", raw[13], o.tr, o.addr >>, << "BWrite", [ty |-> "tlvs", v |-> tb] >> >>
 
 C13(built) ==
